@@ -106,6 +106,13 @@ def universes_c06():
         E("d1", "A", 5, 30, [["e", "n1"], ["e", "r2"]]), E("x1", "A", 20000, 10),
         E("fg", "A", 1, 10, mutate=_forge_content), E("fs", "B", 1, 10, mutate=_forge_sig),
     ]
+    # neighbours in the replaceable address space: same author and kind under other d values (older and newer), the same kind
+    # of another author, the next kind - an acknowledged event may only give way to a newer version of its own address
+    us["addr"] = [
+        E("a10", "A", 30000, 10, [["d", "a"]]), E("a20", "A", 30000, 20, [["d", "a"]]), E("b05", "A", 30000, 5, [["d", "b"]]),
+        E("b30", "A", 30000, 30, [["d", "b"]]), E("e15", "A", 30000, 15), E("o12", "B", 30000, 12, [["d", "a"]]),
+        E("k12", "A", 30001, 12, [["d", "a"]]), E("r08", "A", 10000, 8), E("r25", "A", 10000, 25), E("s12", "A", 10001, 12),
+    ]
     return us
 
 
@@ -192,6 +199,18 @@ def universes_c03():
         E("x", "A", 20000, 10), E("x_bad", "A", 20000, 10, mutate=_forge_sig, twin_of="x"),
         E("r1", "A", 10000, 10), E("r1_bad", "A", 10000, 10, mutate=_forge_sig, twin_of="r1"), E("r2", "A", 10000, 20),
     ]
+    # verbatim: authentic events in representations a relay may be tempted to normalise (bare and empty tag values, extra
+    # items, whitespace, letter case, digit strings, composed / decomposed characters, empty content).  Whatever is stored,
+    # announced or served for them must be the event that was signed: anything else no longer hashes to its id.
+    us["verbatim"] = [
+        E("pb", "A", 30000, 10, [["d"]]), E("pb2", "A", 30001, 11, [["t", "y"], ["d"]]), E("pe", "A", 30002, 12, [["d", ""]]),
+        E("pn", "A", 30003, 12), E("tb", "A", 1, 13, [["t"], ["e"], ["p"]]), E("te", "A", 1, 14, [["t", ""], ["x", "", ""]]),
+        E("tl", "A", 1, 15, [["e", "pn", "wss://r", "root", "more"], ["p", "B", ""]]),
+        E("ts", "B", 1, 16, [["t", "sp"], ["t", "up"], ["t", "a"], ["t", "a"]]),
+        E("tn", "B", 1, 17, [["t", "num"], ["t", "nfc"], ["t", "nfd"]]),
+        E("c0", "B", 1, 18, content=""), E("cs", "B", 1, 19, content="  lead and trail \n"), E("r0", "B", 10000, 20, [["d"]]),
+        E("m0", "B", 0, 21, content="{\"name\": \"x\" }"),
+    ]
     return us
 
 
@@ -208,6 +227,7 @@ def _forge_sig(ev, uni):
 
 
 SYMTABS = {"dunicode": {"uml": "\u00e4", "umlx": "\u00e4x"},
+           "verbatim": {"sp": " a ", "up": "ABCDEF", "num": "007", "nfc": "\u00e9", "nfd": "e\u0301"},
            "gcdigits": {"v999": "999", "vbig": "17000000150", "vz14": "01700000014", "vi14": 1700000014, "vneg": "0abc"}}
 
 UNIVERSES = {"C03": universes_c03, "C06": universes_c06, "C08": universes_c08, "C09": universes_c09, "C17": universes_c17}
@@ -285,7 +305,7 @@ def run(prop, tier, seed, backends=BACKENDS, only_universe=None):
     depth = {"quick": 3, "thorough": 4}[tier]
     if prop == "C03":
         depth = {"quick": 1, "thorough": 2}[tier]     # every variant on its own (and pairs): the quantifier is over inputs
-        depth_of = {"twins": {"quick": 3, "thorough": 4}[tier]}
+        depth_of = {"twins": {"quick": 3, "thorough": 4}[tier], "verbatim": 2}
     cap = {"quick": 1500 if prop == "C06" else 500, "thorough": 20000}[tier]
     own = prop + "_"
     # phase 1: TLC generates behaviours of Store.tla per (universe, backend, writer mode)
@@ -338,8 +358,10 @@ def run(prop, tier, seed, backends=BACKENDS, only_universe=None):
                 samples.append({"universe": uname, "backend": backend, "script": list(cf["scripts"][k]),
                                 "trace": [_pub(ln) for ln in tr]})
             bad = verdicts[k]
+            # (C03: something stored, queued or announced that equals no submitted event in all seven fields cannot hash to its id)
             mine = [b for b in bad if b[0].startswith(own) or (prop == "C06" and b[0] in ("Conform", "Garbage")
-                                                               and not _named_on_line(bad, b[1]))]
+                                                               and not _named_on_line(bad, b[1]))
+                    or (prop == "C03" and b[0] == "Garbage")]
             for b in bad:
                 if b not in mine:
                     other[b[0]] = other.get(b[0], 0) + 1
